@@ -103,6 +103,9 @@ func (ctx *childCtx) config(c tcase) caseConfig {
 	cfg.Askpass = c.Source == "askpass" || has(c.Extra, "askpass")
 	if c.Source == "netrc" || has(c.Extra, "netrc") {
 		for _, host := range c.NetrcHosts {
+			if host == "@F" {
+				host = h.sites[sFhttp].Host // the address of the default-port origin is picked per process
+			}
 			t := credTok{"netrc", "*", host, "*", "0"}
 			cfg.Netrc += fmt.Sprintf("machine %s login %s password %s\n", host, userOf(t), passOf(t))
 		}
